@@ -1308,7 +1308,7 @@ class Engine:
         if isinstance(obj, tuple):
             return obj[a:b]
         if isinstance(obj, SList):
-            return self.new_heap(SList(obj.items[a:b]))
+            return self.new_heap(type(obj)(obj.items[a:b]))
         raise Unsupported("slice of %r" % type(obj).__name__)
 
     def getitem(self, obj, idx):
